@@ -603,7 +603,7 @@ func genText(g *h.Gen) {
 	} else {
 		for _, cs := range all {
 			pool := c11Pool(cs)
-			for i := 0; i < 120 && len(pool) > 0; i++ {
+			for i := 0; i < 300 && len(pool) > 0; i++ {
 				c := h.Pick(g.R, pool)
 				g.Emit("text law %s%s %s %s", h.Pick(g.R, []string{"xterm-256color", "xterm-256color", "vt100", "linux"}), v, cs, h.Hex(c.enc))
 			}
@@ -637,7 +637,7 @@ func genText(g *h.Gen) {
 			}
 		}
 	}
-	for i := 0; i < g.N(1400, 120000); i++ {
+	for i := 0; i < g.N(5000, 120000); i++ {
 		name := h.Pick(g.R, ents)
 		ti := entries()[name]
 		d := tcell.VerifDerived(ti)
